@@ -48,6 +48,22 @@ CHECKS['C18'] = dict(
     text='Proved for every key/filename/mode string and every result of pathlib resolve (oracle; symlinks, dot segments, absolute operands, loops live inside it): all filesystem effects of exists/file_handle/delete act on root\'/c (stat, mkdir, rmtree) or root\'/c/f (open) for one component c per call, given the guards read from storage.py (C18_*_confined); empty/forbidden-character keys are rejected before any access (C18_key_chars); without the filename guard confinement is refuted (C18_file_guard_needed). Partial: that acting on a resolved path touches exactly that path (no symlink left in it) and TOCTOU are the runtime\'s; the sandbox correspondence (real LocalStorage on layouts with symlinks to outside/sibling/self/loop/dangling targets, before/after snapshots) validates it.',
     design='6/C18', technique='Coq proof over guard logic with resolve as oracle + sandbox differential testing',
     note='Theorems are about Model/Paths.v; pathlib.Path.resolve and the OS are oracles (recorded from the real runtime and fed to the model). Tie: Gen/SrcParams.v extracts the forbidden characters and the presence/shape of the three guards; correspondence compares outcome class and touched paths per call. Print Assumptions: closed.')
+CACHE_NOTE = ('Theorems are about Model/Cache.v (an entry = metadata and data file states in a key directory; a save = the '
+              'ordered storage effects mkdir/open/write*/close per file; faults and kills after n effects) and Model/Lab.v '
+              '(histories of run/uncache/is_cached/cached_tasks over the store, run = Sched.run from the current store). Tie: '
+              'Gen/SrcParams.v (order of metadata/data, failure handling of BaseCache.save) and correspondence against the real '
+              'caches/storages (LocalStorage, fsspec local + memory, storage=None). Assumed: pickle/json round trips, key '
+              'injectivity (C07). Print Assumptions: closed.')
+CHECKS.update({
+    'C06': dict(text='Proved: a completed save (any write-call count, flush behaviour, first save/overwrite) is reported cached and loads exactly the saved data+metadata (C06_save_then_load); a save, complete or interrupted, never changes another key (C06_frame; with C07 a load is never foreign); whatever a run left in the store a later run submits as a load, does not expand, and yields the stored value (C06_second_run_loads). Histories on real storages incl. second runs are compared with the model; fresh-interpreter/second-backend runs are sampled.',
+                design='6/C06', technique='Coq proofs over file-level cache model + run model; history correspondence', note=CACHE_NOTE),
+    'C08': dict(text='Proved: run_tasks is the map update "exactly the needed, uncached, succeeding, caching-type tasks get their reference value, everything else unchanged" (C08_run_store_spec, every graph/oracle/failure pattern/bust flag); uncache removes exactly the named entries; queries are pure; cache=None types and storage=None persist nothing; bust_cache replaces what it ran. Provider agreement (LocalStorage, fsspec local, fsspec memory, None) is established by running the same histories against the one model.',
+                design='6/C08', technique='Coq refinement of Lab operations to a map + history correspondence across storage providers', note=CACHE_NOTE),
+    'C12': dict(text='Proved: for every fault point (storage effects completed), write-call counts, flush behaviour, first save/overwrite, with the failure handling extracted from BaseCache.save, afterwards the task is not reported cached and no other key changed (C12_failed_save_safe); refuted without the handling (C12_no_cleanup_refuted). Exceptions are injected at every storage-effect boundary of real saves (3 result shapes, 2 cache formats) inside run_or_load_task.',
+                design='6/C12', technique='Coq proof over save-effect sequences + exhaustive single-fault injection on the real save path', note=CACHE_NOTE),
+    'C13': dict(text='The full statement is REFUTED in the model (C13_crash_safe_refuted, C13_unsafe_points) and on the implementation (known finding D4\': six kill-point classes listed in known_findings.json); proved partial: a kill after the last effect is safe and loads the new value, and a kill never affects another key (C13_partial_*). The check kills a forked writer (os._exit) at every storage-effect boundary with buffered data lost/flushed and compares what is observable afterwards with the model; any unsafe kill point outside the listed classes is reported.',
+                design='6/C13', technique='Coq refutation + partial theorems; kill injection at every storage-effect boundary', note=CACHE_NOTE),
+})
 NOT_YET = {}
 
 
